@@ -68,6 +68,10 @@ class ChannelItem(EFLRItem, DimensionedItem):
         # long name set by default (to the channel's name) when the file was written - if not specified by the user
         self._default_long_name: Union[str, None] = None
 
+        # names of the characteristics ('cast_dtype', 'dimension', 'element_limit') which were not specified by the user,
+        # but determined from the data at the last write; they are determined anew at every write
+        self._determined_from_data: set[str] = set()
+
         self.long_name = EFLROrTextAttribute('long_name', object_class=LongNameSet)
         self.properties = PropertiesAttribute('properties')
         self.representation_code = ReprCodeAttribute(parent_eflr=self)
@@ -107,6 +111,13 @@ class ChannelItem(EFLRItem, DimensionedItem):
         """Set or remove channel cast dtype."""
 
         self._set_cast_dtype(dt)
+        self._determined_from_data.discard('cast_dtype')
+
+    @property
+    def requested_cast_dtype(self) -> Union[numpy_dtype_type, None]:
+        """Numpy data type the user asked the channel data to be cast to (None if the dtype just follows the data)."""
+
+        return None if 'cast_dtype' in self._determined_from_data else self._cast_dtype
 
     def _set_cast_dtype(self, dt: Union[numpy_dtype_type, None]) -> None:
         """Check that the provided cast dtype is acceptable and set it in the Channel."""
@@ -119,6 +130,14 @@ class ChannelItem(EFLRItem, DimensionedItem):
 
     def set_dimension_and_repr_code_from_data(self, data: SourceDataWrapper) -> None:
         """Determine and dimension and representation code attributes of the ChannelItem based on the source data."""
+
+        # characteristics determined from the data at a previous write might not fit the current data - drop them
+        if 'cast_dtype' in self._determined_from_data:
+            self._set_cast_dtype(None)
+        for attr_name in ('dimension', 'element_limit'):
+            if attr_name in self._determined_from_data:
+                getattr(self, attr_name)._value = None
+        self._determined_from_data.clear()
 
         sub_data = data[self.name]
         self._set_dimension_from_data(sub_data)
@@ -135,6 +154,7 @@ class ChannelItem(EFLRItem, DimensionedItem):
                                    f"does not match the dimension from data: {dim}")
             logger.debug(f"Setting dimension of {self} to {dim}")
             self.dimension.value = dim
+            self._determined_from_data.add('dimension')
 
         if self.element_limit.value != dim:
             if self.element_limit.value:  # was specified and is not exactly equal to dim
@@ -145,6 +165,7 @@ class ChannelItem(EFLRItem, DimensionedItem):
             else:
                 # only set the element limit if it was None before
                 logger.debug(f"Setting element limit of {self} to {dim}")
+                self._determined_from_data.add('element_limit')
             self.element_limit.value = dim
 
     @staticmethod
@@ -181,6 +202,7 @@ class ChannelItem(EFLRItem, DimensionedItem):
             return
 
         self._set_cast_dtype(dt)
+        self._determined_from_data.add('cast_dtype')
 
     def _run_checks_and_set_defaults(self) -> None:
         """Set up default values of ChannelItem parameters if not explicitly set previously."""
